@@ -106,6 +106,13 @@ CLAIMED.update({
     },
 })
 
+CLAIMED.update({
+    "C07": {
+        "text": "Real claim reconciler over simkube in three modes (client-side syncer, server-side-apply syncer, upgrade from the former to the latter), three reconciles per case (first sync, re-sync after the XR side wrote its own state and the user edited the claim, settle): claims valid for the generated claim CRD (pruned and defaulted with the real apiextensions structural-schema code) with 4 user-field shapes whose nested names collide with machinery names, 18 (thorough: all 768) subsets of claim machinery fields x update policy, 9 label / annotation key classes (reserved, subdomains, near-miss domains, bare names; thorough: all 512 subsets), external names on either side, 3 XR status variants; every stored field of the XR and the claim is compared with an independent partition of the field space (claim-owned / XR-owned / shared by policy) after every reconcile.",
+        "technique": "exhaustive configuration enumeration against an independent reference partition of the field space (real reconciler and syncers)",
+    },
+})
+
 PENDING_REASON = "not claimed yet: the check for this property is still being built (design in DESIGN.md section 3); no technique switch is intended"
 
 
